@@ -180,7 +180,8 @@ def run_case(case):
            "ksa_candidates_compared": 0, "monotonicity_pairs": 0, "sequence_points_compared": 0,
            "candidates_raised": 0, "failpoints_fired": 0, "candidates_nonfinite": 0, "get_error_calls": 0,
            "reference_paths_agree": 0, "reference_paths_disagree": 0, "distinct_solutions_judged": 0,
-           "distinct_solutions_both_stable": 0, "distinct_solutions_undecided": 0, "stability_analyses": 0}
+           "distinct_solutions_both_stable": 0, "distinct_solutions_undecided": 0, "stability_analyses": 0,
+           "uhf_broken_symmetry_below_rhf": 0}
     viol, margins, cells = [], {}, []
     refs = {}
 
@@ -321,46 +322,70 @@ def run_case(case):
             return "undecided", {"how": "damped SCF restarted 0.01 away from the solution stayed"}
         return "undecided", {"how": "unrestricted solution: no stability analysis available"}
 
-    def clause_a(out, eps_c, alpha_c, s2):
-        """C03 clause (A) on a returned closed-shell/UHF density (repository Fock rebuilt from it): is it self-consistent
-        within the C03 bounds?  -> (bool | None, residuals)"""
+    def clause_a(out, eps_c, alpha_c, s2, like=None, Xk=None):
+        """C03 clause (A) on a returned density: is it a self-consistent stationary point of the *restricted closed-shell*
+        functional within the C03 bounds -- judged with the repository's Fock rebuild AND (MNDO/AM1/PM3) with the
+        independent reference model?  An unrestricted result without spin density is judged through its total density
+        (rebuilt on the molecule object of `like`, a restricted run at the same geometry).  -> (bool | None, residuals)"""
         try:
             Pt = out["_mol"].dm.detach()
-            Fk, Hk = scfmon.rebuild_fock(out["_mol"], Pt)
+            molr = out["_mol"]
+            if Pt.dim() == 4:
+                Pt = (Pt[:, 0] + Pt[:, 1]).contiguous()
+                molr = like["_mol"]
+            Fk, Hk = scfmon.rebuild_fock(molr, Pt)
             nel = int(sum(gen.VALENCE[z] for z in Z) - q)
-            r = scfmon.residuals(Z, Pt.numpy()[0], Fk[0], Hk[0], nel, nel // 2, nel - nel // 2, float(out["Eelec"][0]), out["q"][0], q)
+            Er = 0.5 * float(np.sum(Pt.numpy()[0] * (Hk[0] + Fk[0])))
+            r = scfmon.residuals(Z, Pt.numpy()[0], Fk[0], Hk[0], nel, nel // 2, nel - nel // 2, Er, out["q"][0], q)
+            r1 = scfmon.r1_residuals(method, Z, Xk, Pt.numpy()[0], Fk[0], nel, nel // 2, nel - nel // 2) if Xk is not None else None
         except Exception as exc:
             return None, {"error": repr(exc)}
         ee = max(eps_c, s2)
         A_ = 1.0 / (1.0 - alpha_c)
-        su = 5.0 if Pt.dim() == 4 else 1.0
         gf = max(1.0, 1.0 / max(r["gap"] or 1.0, 1e-3))
-        ok = (r["idempotency"] <= 1e-12 + 50.0 * ee * A_ and r["commutator"] <= 1e-10 + 5e3 * ee * A_ * su
-              and r["reproduction"] <= 1e-10 + 300.0 * ee * A_ * su * gf and r["trace"] <= 1e-6 + 10.0 * s2)
-        return bool(ok), {k: r[k] for k in ("idempotency", "commutator", "reproduction", "trace", "gap")}
+        ok = (r["idempotency"] <= 1e-12 + 50.0 * ee * A_ and r["commutator"] <= 1e-10 + 5e3 * ee * A_
+              and r["reproduction"] <= 1e-10 + 300.0 * ee * A_ * gf and r["trace"] <= 1e-6 + 10.0 * s2)
+        res = {k: r[k] for k in ("idempotency", "commutator", "reproduction", "trace", "gap")}
+        if r1 is not None:
+            res["commutator_R1"] = r1["commutator"]
+            ok = ok and r1["commutator"] <= 4.0 * r1["nbas"] * scfmon.R1_DF + 5e3 * ee * A_
+        return bool(ok), res
 
     def distinct(c, out, ref, where):
-        """a converged result that is a different SCF state than the reference (|dE| > 1e-4 eV and > 100 x bound).
-        (i) it does not even satisfy C03's clause (A)  -> `converged-result-not-selfconsistent`;
-        (ii) it is a genuine self-consistent stationary point: violation iff the higher of the two states is a saddle
-        point while the lower is a minimum (the molecule then has ONE stable closed-shell solution and a solver path
-        left it); two minima => outside the property's premise (counted, not judged)."""
+        """a converged result whose energy is far (> 1e-4 eV and > 100 x bound) from the reference.  Returns "compare" when
+        it is NOT another self-consistent closed-shell state (then the ordinary eps-proportional clauses judge it), else
+        "judged":  (i) flagged converged but not self-consistent  -> `converged-result-not-selfconsistent`;
+        (ii) a genuine stationary point: violation iff the higher of the two states is a saddle point while the lower
+        is a minimum (the molecule then has ONE stable closed-shell solution and a solver path left it); two minima, or
+        a symmetry-broken unrestricted state below the restricted one => outside the property's premise (counted)."""
         Xk = Xd + where * delta
-        mon["distinct_solutions_judged"] += 1
         alpha_c = float(c["conv"][1]) if c["conv"][0] == 0 else 0.0
-        sc_out, res_out = clause_a(out, float(c["eps"]), alpha_c, scfmon.sp2_eff(c.get("sp2")))
-        sc_ref, res_ref = clause_a(ref, 1e-11, 0.0, 0.0)
-        hi_is_out = float(out["Etot"][0]) > float(ref["Etot"][0])
-        hi, lo = (out, ref) if hi_is_out else (ref, out)
+        dm = np.asarray(out["dm"])
+        if dm.ndim == 4:
+            spin = float(np.abs(dm[0, 0] - dm[0, 1]).max())
+            if spin > 1e-6:
+                if float(out["Etot"][0]) < float(ref["Etot"][0]) - DISTINCT_E:
+                    mon["uhf_broken_symmetry_below_rhf"] += 1     # RHF->UHF instability: outside the premise
+                    return "judged"
+                return "compare"
+        sc_out, res_out = clause_a(out, float(c["eps"]), alpha_c, scfmon.sp2_eff(c.get("sp2")), like=ref, Xk=Xk)
+        pulay = c["conv"][0] == 2
         info = {"candidate": c, "where": where, "E_candidate": float(out["Etot"][0]), "E_reference": float(ref["Etot"][0]),
                 "gap_candidate": float(np.asarray(out["gap"]).reshape(-1)[0]), "gap_reference": float(np.asarray(ref["gap"]).reshape(-1)[0]),
                 "candidate_selfconsistent(C03 clause A)": sc_out, "candidate_residuals": res_out,
-                "reference_selfconsistent(C03 clause A)": sc_ref, "species": Z, "coords": Xk.tolist(), "charge": q}
-        pulay = c["conv"][0] == 2
-        if sc_out is False:
-            viol.append({"clause": "converged-result-not-selfconsistent",
-                         "mech": "pulay-converged-flag-on-non-selfconsistent-density" if pulay else None, "detail": info})
-            return info
+                "species": Z, "coords": Xk.tolist(), "charge": q}
+        if sc_out is not True:
+            if pulay and dm.ndim == 3 and sc_out is False and res_out.get("idempotency", 1.0) <= 1e-6 and res_out.get("reproduction", 0.0) > 0.1:
+                # flagged converged on a non-aufbau determinant (C03's finding, seen from C04)
+                mon["distinct_solutions_judged"] += 1
+                viol.append({"clause": "converged-result-not-selfconsistent",
+                             "mech": "pulay-converged-flag-on-non-selfconsistent-density", "detail": info})
+                return "judged"
+            return "compare"
+        mon["distinct_solutions_judged"] += 1
+        hi_is_out = float(out["Etot"][0]) > float(ref["Etot"][0])
+        o2 = out if dm.ndim == 3 else dict(out, dm=(dm[:, 0] + dm[:, 1]))
+        hi, lo = (o2, ref) if hi_is_out else (ref, o2)
         s_hi, i_hi = stability(hi, Xk)
         s_lo, i_lo = stability(lo, Xk)
         info["higher_solution"] = dict(i_hi, verdict=s_hi)
@@ -369,14 +394,14 @@ def run_case(case):
             if hi_is_out:
                 # Pulay cell AND self-consistent (clause A holds) AND another energy: DIIS finds stationary points, not minima
                 viol.append({"clause": "converged-to-unstable-scf-solution",
-                             "mech": "pulay-lands-on-other-scf-stationary-point" if (pulay and sc_out) else None, "detail": info})
+                             "mech": "pulay-lands-on-other-scf-stationary-point" if pulay else None, "detail": info})
             else:
                 viol.append({"clause": "reference-on-unstable-scf-solution", "mech": None, "detail": info})
         elif s_hi == "stable" and s_lo == "stable":
             mon["distinct_solutions_both_stable"] += 1
         else:
             mon["distinct_solutions_undecided"] += 1
-        return info
+        return "judged"
 
     def judge(c, out, ref, where, errs_store=None):
         rho = state["elog"].contraction() if state.get("elog") is not None else 0.0
@@ -396,8 +421,7 @@ def run_case(case):
             return None
         err = _errors(out, ref, norb)
         _, _, B0 = _bounds(c, 0.98, width, 0.98)
-        if err["E"] > max(DISTINCT_E, 100.0 * B0["E"]):
-            distinct(c, out, ref, where)
+        if err["E"] > max(DISTINCT_E, 100.0 * B0["E"]) and distinct(c, out, ref, where) == "judged":
             return None
         mon["candidates_compared"] += 1
         if c.get("sp2"):
